@@ -117,21 +117,21 @@ Theorem C09_update_volume_strong_refuted :
 Proof. exact update_volume_strong_refuted. Qed.
 Print Assumptions C09_update_volume_strong_refuted.
 
-(* terminating queue objects: a terminating child still makes its parent a non-leaf;
-   a terminating target that is Open and childless is admitted *)
-Theorem C09_create_terminating_child_still_blocks :
+(* terminating queue objects (Examples: no model function reads q_term / j_term, so these are
+   closed computations that document the reading; the assurance about terminating objects is the
+   harness stream): a terminating child still makes its parent a non-leaf; a terminating target
+   that is Open and childless is admitted *)
+Example C09_create_terminating_child_still_blocks :
   validate_create tq_oracles [mkQueue 1 1 0 false; mkQueue 4 1 1 false; mkQueue 5 1 4 true] (tq_job 4) = false /\
   validate_create tq_oracles [mkQueue 1 1 0 false; mkQueue 4 1 1 false] (tq_job 4) = true.
 Proof. exact create_terminating_child_still_blocks. Qed.
-Print Assumptions C09_create_terminating_child_still_blocks.
 
-Theorem C09_create_admits_terminating_target :
+Example C09_create_admits_terminating_target :
   exists qs q, In q qs /\ q_term q = true /\ validate_create tq_oracles qs (tq_job (q_name q)) = true.
 Proof. exact create_admits_terminating_target. Qed.
-Print Assumptions C09_create_admits_terminating_target.
 
 (* Terminating jobs: the Update case of AdmitJobs checks them like any other job *)
-Theorem C09_update_on_terminating_job_still_checked :
+Example C09_update_on_terminating_job_still_checked :
   let t n r m d := mkTask n r (Some m) (mkTmpl 1 false 0) [] 3 d None in
   let jb ts ma q tm := mkJob 7 ts ma [] [] None q 1 3 0 0 0 tm in
   let old tm := jb [t 4 2 1 None; t 5 1 1 None] 2 2 tm in
@@ -141,7 +141,28 @@ Theorem C09_update_on_terminating_job_still_checked :
     validate_update (old a) (jb [t 4 2 3 None; t 5 1 1 None] 2 2 b) = false /\
     validate_update (old a) (jb [t 4 3 2 None; t 5 1 1 None] 3 2 b) = true.
 Proof. exact update_on_terminating_job_still_checked. Qed.
-Print Assumptions C09_update_on_terminating_job_still_checked.
+
+(* N1 (second audit): "an update may change only replica counts, minAvailable and priority
+   class while preserving these invariants" is NOT guaranteed for the claim name of a volume with
+   an inline claim: an admitted update stores a name CREATE's validator rejects (known finding
+   C09-update-claimname-under-inline-claim; laws 104 / 106 and update_spec / job_inv hold on it,
+   law 107 does not) *)
+Theorem C09_update_only_three_fields_refuted :
+  exists O qs old new,
+    validate_create O qs old = true /\ validate_update old new = true /\ j_name new = j_name old /\
+    j_volumes new <> j_volumes old /\
+    (exists v, In v (j_volumes new) /\ v_cname v <> 0 /\ o_pv O (v_cname v) = false) /\
+    validate_create O qs new = false /\
+    law_update old new true = true /\ law_persist O new = true /\
+    law_update_claimname O old new true = false.
+Proof. exact update_only_three_fields_refuted. Qed.
+Print Assumptions C09_update_only_three_fields_refuted.
+
+Theorem C09_law_update_claimname_sound : forall O old new,
+  law_update_claimname O old new true = true -> length (j_volumes old) = length (j_volumes new) ->
+  Forall2 (claimname_step_ok O) (j_volumes old) (j_volumes new).
+Proof. exact law_update_claimname_sound. Qed.
+Print Assumptions C09_law_update_claimname_sound.
 
 (* ---- what the executable laws mean (Prop-level soundness; iff for the leaf checkers) ---- *)
 Theorem C09_law_create_sound : forall O qs j,
@@ -186,10 +207,8 @@ Theorem C09_law_mutate_sound : forall j m1 m2, law_mutate j m1 m2 = true ->
 Proof. exact law_mutate_sound. Qed.
 Print Assumptions C09_law_mutate_sound.
 
-Theorem C09_law_default_valid_sound : forall j v0 v1,
-  law_default_valid j v0 v1 = true -> v0 = true -> request_in_range j = true -> v1 = true.
-Proof. exact law_default_valid_sound. Qed.
-Print Assumptions C09_law_default_valid_sound.
+(* law 103 is an implication between three observed booleans and request_in_range; unfolding
+   it (LawLemmas.law_default_valid_sound) adds nothing and is not listed as a property theorem *)
 
 Theorem C09_policies_wf_b_iff : forall ps, policies_wf_b ps = true <-> policies_wf ps.
 Proof. exact policies_wf_b_iff. Qed.
